@@ -283,6 +283,8 @@ def run(R):
              ('sha256_rsa_signer.Sha256WithRsaSigner', 'verify_rsa', 'RsaChecker', 'SHA256_WITH_RSA'),
              ('sha256_hmac_signer.HmacSha256Signer', 'verify_hmac', 'HmacChecker', 'HMAC_WITH_SHA256'),
              ('ed25519_signer.Ed25519Signer', 'verify_ed25519', 'Ed25519Checker', 'ED25519')]
+    EXT_SIG = {'DSS.new': ('key', 'mode', 'encoding', 'randfunc'), 'pkcs1_15.new': ('rsa_key',), 'HMAC.new': ('key', 'msg', 'digestmod'),
+               'eddsa.new': ('key', 'mode', 'context'), 'SHA256.new': ('data',)}     # pycryptodome signatures
     for (sg, vf, chk, st) in pairs:
         sq = 'ndn.security.signer.' + sg
         wi = ctx(R, sq + '.write_signature_info')
@@ -303,8 +305,12 @@ def run(R):
             out = []
             for (n, c) in calls_in_ctx(cxx):
                 fn = ast.unparse(c.func)
-                if fn in ('DSS.new', 'pkcs1_15.new', 'HMAC.new', 'eddsa.new', 'SHA256.new'):
-                    lits = [a.value for a in c.args if isinstance(a, ast.Constant)] + [f'{k.arg}={ast.unparse(k.value)}' for k in c.keywords]
+                if fn in EXT_SIG:
+                    # scheme parameters by name, however they are passed (the key / message arguments are data, not parameters)
+                    names = EXT_SIG[fn]
+                    bound = {names[i]: a for i, a in enumerate(c.args) if i < len(names)}
+                    bound.update({k.arg: k.value for k in c.keywords if k.arg})
+                    lits = sorted(f'{k}={ast.unparse(v)}' for k, v in bound.items() if k not in ('key', 'rsa_key', 'msg', 'data'))
                     out.append((fn, tuple(lits)))
             return sorted(out)
         if scheme(wv) != scheme(vx):
